@@ -6,6 +6,9 @@ decrypts, which address-derived value enters the cipher, what the ROM must find 
        against the engine: agrees for unit-aligned bases, the two known defects are *predicted* (FlashEncPredict*.cfg must fail).
  GEN : FlashEncGen - TLC enumerates the structural case space (region placements x base cell x length in cells); this module adds
        the byte-level parts (tails, sub-cell offsets, engine modes, end-address conventions, API level, keys).
+       FlashEncGenWrap - the cases around the end of the documented range of an ADDITIVE counter (IEE AES-CTR: word + address >> 4
+       reaches 2^32 in a cell inside the image): "engine output = plaintext" is asserted up to that block only (FetchUnsettled
+       behind it), "whole = pieces" everywhere - it says nothing about an engine.
  exec: every case is run through the real code (Otfad / OtfadNxp, Iee / IeeNxp, BeeNxp + headers); then c13_hw (independent engine
        and ROM models, AES block function of `cryptography` only) loads the EXPORTED key blobs and reads the EXPORTED image cell by
        cell, logging per cell the context it selected, the cipher input and whether its output equals the plaintext.
@@ -114,17 +117,27 @@ def selftest():
 
 
 # ------------------------------------------------------------------------------------------------ abstract case -> concrete case
-def spec_regs(cc):
+def ctr_word(cc, g, mg):
+    """Initial value of an additive counter word (IEE AES-CTR with address binding: last big-endian word of the nonce); 0 where the
+    engine adds nothing to a configured word (OTFAD: the address itself; BEE: the word is zero by format; XTS: page number)."""
+    if cc["eng"] == "iee" and g["fl"] == "on" and g["m"][1] == "AesCTRWAddress":
+        return g.get("w", mg["w"])
+    return 0
+
+
+def spec_regs(cc, m):
     """The regions as the spec sees them (cells)."""
     out = []
-    for g in cc["regs"]:
-        out.append({"lo": g["lo"], "hi": g["hi"], "vld": g["fl"] != "inv", "ade": g["fl"] == "on", "chk": g.get("chk", True), "inp": g["inp"] if g["fl"] == "on" else "none"})
+    for g, mg in zip(cc["regs"], m["regs"]):
+        w = ctr_word(cc, g, mg)
+        out.append({"lo": g["lo"], "hi": g["hi"], "vld": g["fl"] != "inv", "ade": g["fl"] == "on", "chk": g.get("chk", True), "inp": g["inp"] if g["fl"] == "on" else "none",
+                    "wh": w >> 16, "wl": w & 0xFFFF})
     return out
 
 
-def spec_case(cc):
+def spec_case(cc, m):
     o = cc["origin"]
-    return {"eng": cc["eng"], "C": cc["C"], "unit": cc["unit"], "oh": o >> 16, "ol": o & 0xFFFF, "regs": spec_regs(cc), "nrec": cc["nrec"],
+    return {"eng": cc["eng"], "C": cc["C"], "unit": cc["unit"], "oh": o >> 16, "ol": o & 0xFFFF, "regs": spec_regs(cc, m), "nrec": cc["nrec"],
             "base": cc["base"], "sub": cc["sub"], "len": cc["len"], "salign": cc["unit"] if cc["eng"] == "iee" else 1, "rule": cc["rule"]}
 
 
@@ -219,6 +232,11 @@ def concretise(eng, g, idx, r, tier, sampled=False):
                     if (idx // 2) % 3 == 0:
                         cc["api"] = "nxp"
                         cc["family"] = IEE_FAMILIES[(idx // 6) % len(IEE_FAMILIES)]
+                    elif (idx // 2) % 3 == 1 and cc["len"] > 0:  # the key blob's own entry point, when the image lies in one region
+                        last = g["base"] + (cc["len"] - 1) // C
+                        own = [j for j, x in enumerate(regs) if x["fl"] != "inv" and x["lo"] <= g["base"] and last <= x["hi"]]
+                        if own:
+                            cc["api"], cc["blobreg"] = "blob", own[0]
                     for j, x in enumerate(regs):
                         if x["fl"] == "byp":
                             x["m"] = ["bypass", "Bypass", r.choice(["CTR128XTS256", "CTR256XTS512"])]
@@ -234,6 +252,54 @@ def concretise(eng, g, idx, r, tier, sampled=False):
                     cc["mode"] = "+".join(sorted({x["m"][0] for x in regs}))
                 cc["regs"] = regs
                 out.append(cc)
+    return out
+
+
+WRAP_BLOCKS = [1, 63, 0, 32, 2, 62, 31]      # 16-byte block inside the 1 KiB cell at which the counter word reaches 2^32 (64 blocks per cell)
+WRAP_SHORT = [0, 1, 15, 16, 17, 1008]        # bytes missing at the end of the image's last cell (the image keeps its cells)
+
+
+def concretise_wrap(g, idx, r, tier):
+    """One structural case of FlashEncGenWrap -> IEE cases whose AES-CTR counter word (region wr) reaches 2^32 in cell wc of the image.
+    API levels: the key blob's own entry point (IeeKeyBlob.encrypt_image, image inside the region), Iee.encrypt_image, IeeNxp."""
+    C, unit = 1024, 4
+    thorough = tier == "thorough"
+    out = []
+    for bi0 in (WRAP_BLOCKS if thorough else [WRAP_BLOCKS[idx % len(WRAP_BLOCKS)]]):
+        short = WRAP_SHORT[(idx + bi0) % len(WRAP_SHORT)]
+        ln = g["lc"] * C - short
+        origin = r.choice(ORIGINS)
+        # the wrap block must hold image bytes: in the image's last cell there may be fewer than 64 blocks
+        in_cell = min(C, g["base"] * C + ln - g["wc"] * C)
+        bi = min(bi0, (in_cell - 1) // 16)
+        regs = [dict(x) for x in sorted(g["regs"], key=lambda x: x["lo"])]
+        for j, x in enumerate(regs):
+            x["style"] = "excl"
+            x["lock"] = r.random() < 0.3
+            if j == g["wr"] - 1:
+                x["m"] = list(IEE_MODES[2 + (idx + bi0) % 2])
+                x["inp"] = "shr4"
+                x["w"] = ((1 << 32) - ((origin + g["wc"] * C) >> 4) - bi) & 0xFFFFFFFF
+                x["wrapreg"] = True
+            elif x["fl"] == "byp":
+                x["m"] = ["bypass", "Bypass", r.choice(["CTR128XTS256", "CTR256XTS512"])]
+                x["inp"] = "none"
+            else:
+                x["m"] = list(IEE_MODES[(idx + j) % 4])
+                x["inp"] = "page" if x["m"][1] == "AesXTS" else "shr4"
+        r.shuffle(regs)
+        wreg = [j for j, x in enumerate(regs) if x.pop("wrapreg", False)][0]
+        # the key blob's own entry point whenever the image lies in the region; Iee.encrypt_image / IeeNxp.binary_image in rotation
+        apis = (["blob"] if g["inside"] else []) + ([["low", "nxp"][(idx // 2 + bi0) % 2]] if (thorough or idx % 2 == 0 or not g["inside"]) else [])
+        for api in apis:
+            cc = {"eng": "iee", "C": C, "unit": unit, "base": g["base"], "sub": 0, "len": ln, "rule": "all", "origin": origin, "var": "wrap", "api": api,
+                  "kb": idx % 4 == 0, "nrec": 4, "regs": [dict(x) for x in regs], "mode": "+".join(sorted({x["m"][0] for x in regs})),
+                  "wrap": {"reg": wreg, "cell": g["wc"], "blk": g["wc"] * (C // 16) + bi, "inside": g["inside"], "beyond": g["beyond"]}}
+            if api == "nxp":
+                cc["family"] = IEE_FAMILIES[(idx // 4) % len(IEE_FAMILIES)]
+            if api == "blob":
+                cc["blobreg"] = wreg
+            out.append(cc)
     return out
 
 
@@ -547,7 +613,8 @@ def exec_iee(cc, m):
         ks = g["m"][2]
         n1 = 16 if ks == "CTR128XTS256" else 32
         if g["m"][1].startswith("AesCTR"):
-            nonce = mg["nonce"] + mg["w"].to_bytes(4, "big")  # last word + (address >> 4) stays below 2^32
+            # last word: below 2^31 (word + (address >> 4) stays below 2^32) unless the case places the wrap itself (g["w"], wrap lane)
+            nonce = mg["nonce"] + g.get("w", mg["w"]).to_bytes(4, "big")
             return mg["key"][:n1], hw.rev_words(nonce)
         return mg["key"][:n1], mg["key2"][:n1]
 
@@ -567,6 +634,10 @@ def exec_iee(cc, m):
             iee.add_key_blob(kb)
         return iee.encrypt_image(p, b)
 
+    def own(p, b):
+        """The key blob's own entry point: data that lie inside its range, any number of units in one call."""
+        return blobs()[cc["blobreg"]].encrypt_image(b, p)
+
     if cc["api"] == "nxp":
         def build():
             start = min([base] + [addr_range(cc, g)[0] for g in cc["regs"]])
@@ -580,7 +651,7 @@ def exec_iee(cc, m):
         table, out = res if res else (None, None)
         kberr = err
     else:
-        out, err = guarded(lambda: low(plain, base))
+        out, err = guarded(lambda: (own if cc["api"] == "blob" else low)(plain, base))
 
         def build_tab():
             iee = Iee()
@@ -638,10 +709,34 @@ def exec_iee(cc, m):
             nx = IeeNxp(cc["family"], kba, m["ibkek1"], m["ibkek2"], key_blobs=blobs(), binaries=bins)
             return nx.binary_image().export()[base - kba:]
 
-        traces.update(all_local(cc, plain, out, low, joint if cc["api"] == "nxp" else None))
+        traces.update(all_local(cc, plain, out, own if cc["api"] == "blob" else low, joint if cc["api"] == "nxp" else None))
+        if cc["api"] == "blob" and cc["regs"][cc["blobreg"]]["m"][1] == "AesCTRWAddress":
+            traces["drift"] = subunit_drift(cc, plain, out, own, base)
     elif out is None:
         traces["img"] = err
     return traces
+
+
+def subunit_drift(cc, plain, whole, enc, base):
+    """NOT part of the verdict.  The property quantifies over 4 KiB-aligned IEE data addresses, so a piece that starts inside a page is
+    outside its domain (in XTS mode such a piece cannot even be encrypted correctly).  In CTR mode the code accepts any 16-byte aligned
+    address: whether whole = pieces also holds for such cuts (16 bytes in, the middle, around the wrap point) is counted as information.
+    Pieces are the 256 bytes in front of and behind the cut, encrypted at their addresses and compared with the same bytes of the whole."""
+    n = len(plain)
+    pts = {16, (n // 32) * 16}
+    if "wrap" in cc:
+        w = cc["wrap"]["blk"] * 16 - (cc["base"] * cc["C"])
+        pts |= {w - 16, w, w + 16}
+    d = {"cuts": 0, "differ": 0, "refused": 0}
+    for cut in sorted(x for x in pts if 0 < x < n and x % 4096):
+        a, b = max(0, cut - 256), min(n, cut + 256)
+        d["cuts"] += 1
+        try:
+            if (enc(plain[a:cut], base + a)[:cut - a] + enc(plain[cut:b], base + cut))[:b - a] != whole[a:b]:
+                d["differ"] += 1
+        except Exception:  # noqa: BLE001 - a refusal of an address outside the domain is fine
+            d["refused"] += 1
+    return d
 
 
 EXEC = {"otfad": exec_otfad, "bee": exec_bee, "iee": exec_iee}
@@ -651,7 +746,8 @@ def execute(cc):
     """Concrete case -> list of traces for TLC."""
     m = material(cc)
     tr = EXEC[cc["eng"]](cc, m)
-    sc = spec_case(cc)
+    sc = spec_case(cc, m)
+    drift = tr.pop("drift", None)
     out = []
     for kind, evs in tr.items():
         if kind == "kb" and not (cc.get("kb") or cc.get("tamper")):
@@ -661,6 +757,8 @@ def execute(cc):
             case = dict(sc)
             case["rule"] = "units"
         out.append({"id": f"{cc['id']}/{kind}", "kind": kind.split(":")[0], "case": case, "ev": evs})
+    if drift and out:
+        out[0]["drift"] = drift  # not an observation for TLC: taken off again before the traces are validated
     return out
 
 
@@ -706,7 +804,9 @@ def finding_key(cc, kind, ev):
         if e != "Local":
             return f"C13/{eng}/{cc['mode']}/{bcls}/local/{e}"
         ccls = "cut-aligned" if aligned and ev["s"] % unit == 0 else "cut-unaligned"
-        return f"C13/{eng}/{cc['mode']}/{ccls}/local"
+        if "wrap" in cc:  # a cut at or behind the block where the additive counter word reaches 2^32 / in front of it
+            ccls += "/behind-counter-wrap" if ev["s"] * cc["C"] // 16 >= cc["wrap"]["blk"] else "/before-counter-wrap"
+        return f"C13/{eng}/{cc['mode']}/{ccls}/local" + ("/api-keyblob" if cc["api"] == "blob" else "")
     # key blobs
     if e != "Blob":
         return f"C13/{eng}/keyblob/{e}"
@@ -750,11 +850,20 @@ CANARY_CASE = {"id": "canary", "eng": "otfad", "C": 256, "unit": 4, "base": 4, "
                "regs": [{"lo": 0, "hi": 11, "fl": "on", "style": "incl", "inp": "addr", "flags": 3}, {"lo": 12, "hi": 15, "fl": "byp", "style": "excl", "inp": "addr", "flags": 5}]}
 
 
+# IEE AES-CTR, one key blob over 12 cells, the image fills them (17 bytes short); the counter word reaches 2^32 in cell 5, block 7
+CANARY_WRAP = {"id": "canaryw", "eng": "iee", "C": 1024, "unit": 4, "base": 0, "sub": 0, "len": 12 * 1024 - 17, "rule": "all", "origin": 0x30001000, "var": "wrap", "api": "blob",
+               "kb": True, "nrec": 4, "mode": "ctr128", "blobreg": 0, "wrap": {"reg": 0, "cell": 5, "blk": 5 * 64 + 7, "inside": True, "beyond": True},
+               "regs": [{"lo": 0, "hi": 11, "fl": "on", "style": "excl", "lock": False, "m": ["ctr128", "AesCTRWAddress", "CTR128XTS256"], "inp": "shr4",
+                         "w": (1 << 32) - (0x30001000 >> 4) - (5 * 64 + 7)}]}
+
+
 def make_canary():
     """Regenerates anchors/C13/canary_traces.json (run once on a tree where the property holds, after a change of the trace format):
     VERIF_ROOT=/verif PYTHONPATH=/repo:/verif/harness /venv/bin/python -c 'import c13; c13.make_canary()'"""
     import_spsdk()
-    good = execute(dict(CANARY_CASE))
+    good = execute(dict(CANARY_CASE)) + execute(dict(CANARY_WRAP))
+    for t in good:
+        t.pop("drift", None)
     rej, _ = tlc.tv("C13", "FlashEncTrace", good)
     if rej:
         raise Machinery(f"not a good canary: {rej}")
@@ -768,23 +877,44 @@ def canary(v):
         good = json.load(f)
     bad = json.loads(json.dumps(good))
     for t in good:
-        t["id"] = "good/" + t["id"].split("/", 1)[1]
+        t["id"] = "good/" + t["id"]
     for t in bad:
-        t["id"] = "bad/" + t["id"].split("/", 1)[1]
+        t["id"] = "bad/" + t["id"]
         if t["kind"] == "img":
-            t["ev"][2]["ok"] = False          # one cell whose engine output is not the plaintext
+            t["ev"][2]["ok"] = False          # one cell whose engine output is not the plaintext (wrap case: a cell in front of the wrap)
         elif t["kind"] == "loc":
             t["ev"][0]["ok"] = False          # one cut where whole != pieces
         else:
             t["ev"][0]["hi"][1] ^= 0x400      # a key blob whose range is one unit off
-    more = json.loads(json.dumps([t for t in good if t["kind"] == "img"]))[0]
-    more["id"] = "bad/ctx"
-    more["ev"][1]["inp"][1] += 16             # right bytes, but the logged cipher input is not the cell's address
-    rej, _ = tlc.tv("C13", "FlashEncTrace", good + bad + [more])
-    want = {t["id"] for t in bad} | {"bad/ctx"}
-    if set(rej) != want or len(want) != 5:
+    def variant(tid, kind, name, change):
+        t = json.loads(json.dumps([x for x in good if x["id"] == f"good/{tid}/{kind}"]))[0]
+        t["id"] = name
+        change(t["ev"])
+        return t
+
+    def set_(i, field, value):
+        def change(ev):
+            ev[i][field] = value
+        return change
+
+    def bump_inp(i):
+        def change(ev):
+            ev[i]["inp"][0 if ev[i]["inp"][1] == 0 and ev[i]["inp"][0] else 1] += 16
+        return change
+
+    more = [variant("canary", "img", "bad/ctx", bump_inp(1)),            # right bytes, but the logged cipher input is not the cell's address
+            # the additive counter: behind the block where word + (address >> 4) reaches 2^32 (cell 5 of 12) ...
+            variant("canaryw", "loc", "bad/cut-behind-wrap", set_(1, "ok", False)),   # ... whole = pieces is demanded all the same (cut at cell 8)
+            variant("canaryw", "img", "bad/wrap-cell-inp", bump_inp(6)),               # ... and so are selection / address / cipher input of a cell
+            variant("canaryw", "img", "bad/cell-before-wrap", set_(4, "ok", False))]   # in front of it the engine clause holds as everywhere
+    # ... but NOT "engine output = plaintext": what the engine does there is not documented - such a trace must be accepted
+    free = [variant("canaryw", "img", "good/wrap-cell-unsettled", set_(5, "ok", False)), variant("canaryw", "img", "good/behind-wrap-unsettled", set_(9, "ok", False))]
+    rej, _ = tlc.tv("C13", "FlashEncTrace", good + bad + more + free)
+    want = {t["id"] for t in bad + more}
+    if set(rej) != want or len(want) != len(good) + 4 or len(good) < 7:
         raise Machinery(f"canary failed: rejected {sorted(rej)}; expected exactly the corrupted traces {sorted(want)}")
-    v.extra["canary"] = f"{len(good)} stored good traces accepted; the same with one ok flag cleared / one range limb / one cipher input changed rejected ({len(want)})"
+    v.extra["canary"] = (f"{len(good)} stored good traces accepted; the same with one ok flag cleared / one range limb / one cipher input changed rejected ({len(want)}); "
+                         f"{len(free)} traces whose only flaw is the engine output in the undocumented range of the IEE AES-CTR counter accepted")
 
 
 class Background(threading.Thread):
@@ -826,7 +956,7 @@ def run(tier):
 
     # ---- MC: lemmas, non-vacuity, I-spec agreement; predictions (in the background: independent of the executions)
     def model_checking():
-        acts = ("DoLoadBlob", "DoLoadFiller", "DoEndLoad", "DoFetchDecrypt", "DoFetchBypass", "DoFetchMiss", "DoEndFetch", "DoLocal", "DoEndLocal")
+        acts = ("DoLoadBlob", "DoLoadFiller", "DoEndLoad", "DoFetchDecrypt", "DoFetchUnsettled", "DoFetchBypass", "DoFetchMiss", "DoEndFetch", "DoLocal", "DoEndLocal")
         mc = tlc.mc("C13", "FlashEncMC", "FlashEncMC_quick.cfg" if quick else "FlashEncMC.cfg", require_actions=acts, heap="6g", timeout=1500, workers=4 if quick else 8)
         pred = {}
         for name, cfg, inv in (("otfad/base-unaligned/straddle", "FlashEncPredictOtfad.cfg", "WalkAnyBase"), ("iee/inclusive-end/last-page", "FlashEncPredictIee.cfg", "WalkIeeInclusiveEnd")):
@@ -838,6 +968,8 @@ def run(tier):
 
     bg = Background(model_checking)
     time.sleep(0.5)  # lib.tlc numbers its scratch directories with a plain counter: never start two runs in the same instant
+    bgw = Background(lambda: tlc.run("C13", "FlashEncGenWrap", "FlashEncGenWrap.cfg", workers=1, heap="4g", timeout=900))
+    time.sleep(0.5)
     canary(v)
     say(f"[C13] anchors + canary ok {v.timer.s()}s")
 
@@ -852,6 +984,15 @@ def run(tier):
             if quick and eng != "bee" and idx % 3 and (len(s["regs"]) > 2 or (eng == "otfad" and any(x["fl"] != "on" for x in s["regs"]))):
                 continue  # quick tier: three-region placements and the bypassing / invalid OTFAD contexts in rotation (1 in 3)
             cases += concretise(eng, s, idx, r, tier)
+    # ---- wrap lane: the additive counter of IEE AES-CTR reaches 2^32 in a cell of the image (every structural case in both tiers)
+    gw = bgw.result()
+    wstructs = gw.json_prints()
+    if len(wstructs) != gw.distinct or len(wstructs) < 1000 or not any(s["inside"] and s["beyond"] for s in wstructs):
+        raise Machinery(f"GEN (wrap) emitted {len(wstructs)} cases for {gw.distinct} states")
+    n_main = len(cases)
+    for idx, s in enumerate(wstructs):
+        cases += concretise_wrap(s, idx, r, tier)
+    n_wrap = len(cases) - n_main
     n_gen = len(cases)
     # ---- sampled lane: up to 4 regions, wider windows, every tail / sub offset / origin
     for i in range(300 if quick else 3000):
@@ -866,20 +1007,25 @@ def run(tier):
         t = dict(cc)
         t["id"], t["tamper"] = cc["id"] + "t", True
         tamper.append(t)
-    say(f"[C13] GEN done {v.timer.s()}s: {len(structs)} structural cases -> {n_gen} concrete + {len(cases) - n_gen} sampled + {len(tamper)} tamper")
+    say(f"[C13] GEN done {v.timer.s()}s: {len(structs)} + {len(wstructs)} (counter wrap) structural cases -> {n_main} + {n_wrap} concrete + {len(cases) - n_gen} sampled + {len(tamper)} tamper")
 
     by_id = {cc["id"]: cc for cc in cases + tamper}
     n_traces, block = 0, 25000
+    drift = {}
     for k in range(0, len(cases), block):  # in blocks: a thorough run holds some 10^5 traces
         part = cases[k:k + block]
         traces = [t for res in pmap(execute, part, chunksize=16) for t in res]
+        for t in traces:
+            for key, n in (t.pop("drift", None) or {}).items():
+                drift[key] = drift.get(key, 0) + n
         if k == 0:
             for t in (traces[0], traces[len(traces) // 3], traces[len(traces) // 2], traces[-1]):
                 v.sample({"id": t["id"], "kind": t["kind"], "case": t["case"], "ev": t["ev"][:6]})
         ran = {t["id"].split("/")[0] for t in traces if t["ev"] and t["ev"][0]["e"] not in ("Refused", "Crash")}
         for cc in part:
             if cc["len"] > 0 and cc["id"] in ran:  # non-trivial: SPSDK produced an image and the engine model read at least one cell of it
-                v.nontrivial(json.dumps([cc["eng"], cc["var"], cc["api"], cc["base"], cc["sub"], cc["len"], [(x["lo"], x["hi"], x["fl"], x["style"]) for x in cc["regs"]]]))
+                v.nontrivial(json.dumps([cc["eng"], cc["var"], cc["api"], cc["base"], cc["sub"], cc["len"], [(x["lo"], x["hi"], x["fl"], x["style"]) for x in cc["regs"]],
+                                         cc.get("wrap", {}).get("blk")]))
         v.count(len(part))
         validate(v, by_id, traces)
         n_traces += len(traces)
@@ -888,7 +1034,11 @@ def run(tier):
     mc, pred = bg.result()
     v.add_mc(mc)
     v.add_mc(g)
+    v.add_mc(gw)
     v.extra["ispec_predictions"] = pred
+    v.extra["drift_iee_ctr_subunit_cuts"] = dict(drift, note="NOT asserted (IEE data addresses are 4 KiB aligned in the property): whole vs pieces for cuts INSIDE a page "
+                                                 "through IeeKeyBlob.encrypt_image in AES-CTR mode, incl. the cuts around the counter wrap; `differ` > 0 means the ciphertext "
+                                                 "of a block depends on where the call started")
     say(f"[C13] MC done {v.timer.s()}s (MC alone {mc.wall:.1f}s): {mc.distinct} states; predicted by the I-spec: {sorted(pred)}")
     rej = validate(v, by_id, ttraces, expect_reject=True)
     acc = [t["id"] for t in ttraces if t["id"] not in rej]
@@ -900,16 +1050,25 @@ def run(tier):
         f"cases = the {len(structs)} structural cases TLC enumerates (1..3 unit-aligned disjoint regions, each decrypting / bypassing / invalid, in a window of "
         f"12 cells; every base cell; every length in cells) x engine (OTFAD, BEE, IEE) x byte tail {{0,1,15,16,17}} x sub-cell base offset x mode "
         "(OTFAD plain / byte-swapped, BEE one / two engines, IEE XTS-256/512, CTR-128/256 with address, bypass) x end-address convention x API level "
-        f"({'one tail / offset / mode per structural case in rotation' if quick else 'all tails and offsets'}) + seeded samples with up to 4 regions in wider windows; "
+        f"({'one tail / offset / mode per structural case in rotation' if quick else 'all tails and offsets'}) + seeded samples with up to 4 regions in wider windows "
+        f"+ the {len(wstructs)} counter-wrap cases TLC enumerates for IEE AES-CTR (1..2 regions, unit-aligned base, length in cells, the decrypting region and the cell of "
+        "the image in which its counter word + (address >> 4) reaches 2^32; the block inside the cell, key size, short last cell in rotation) x API level "
+        f"(IeeKeyBlob.encrypt_image when the image lies in the region, Iee.encrypt_image / IeeNxp in rotation), all unit-aligned cuts "
+        f"({'one block position per structural case in rotation' if quick else 'all seven block positions'}); "
         "a case is non-trivial if the image is not empty, SPSDK exported something and the engine model read at least one cell of it; distinct by (engine, mode, API, base, offset, length, regions)")
     v.cov["exhaustive"] = not quick  # quick: flag variants and three-region placements 1 in 3, one tail / offset per structural case
-    v.cov["checker_cmd"] = "TLC FlashEncMC (lemmas + I-spec) ; TLC FlashEncGen (case space) ; TLC FlashEncTrace (decides every trace)"
+    v.cov["checker_cmd"] = "TLC FlashEncMC (lemmas + I-spec) ; TLC FlashEncGen + FlashEncGenWrap (case spaces) ; TLC FlashEncTrace (decides every trace)"
     v.cov["trusted_base"] = ["AES block function of `cryptography` (ECB, one block at a time)", "c13_hw.py: CTR counter blocks, XTS tweak chain, RFC 3394 unwrap, CBC, CRC-32/MPEG-2 in pure Python",
                              "anchors/C13: NXP image_enc artefacts + published vectors (RFC 3394 4.1, IEEE 1619 vector 2, CRC check value) reproduced at the start of every run", "TLC 2 (tla2tools.jar)"]
     v.assumptions += [
         "IEE ranges are given as [start, end) with an aligned end address (schema text, NXP image_enc arguments and the repository's own adjacent key blobs share the boundary address); "
         "an inclusive end (…FFF) is outside the asserted domain for IEE (the I-spec predicts that its last page stays plaintext) - OTFAD accepts both conventions and both are asserted",
-        "IEE AES-CTR: the last big-endian word of the nonce plus (address >> 4) stays below 2^32 (carry behaviour of the hardware counter is not documented offline); page_offset = 0",
+        "IEE AES-CTR: 'engine output = plaintext' is asserted only for cells in which the last big-endian word of the nonce plus (address >> 4) stays below 2^32 "
+        "(carry behaviour of the hardware counter is not documented offline; the spec recomputes the block from the configured word: Settled / FetchUnsettled); "
+        "'whole = pieces' is asserted for every unit-aligned cut, also at and behind that block; page_offset = 0",
+        "IEE: pieces start at 4 KiB-aligned addresses only (the property's quantifier); cuts inside a page in AES-CTR mode are counted as drift (evidence: drift_iee_ctr_subunit_cuts), never as a violation",
+        "IeeKeyBlob.encrypt_image (the key blob's own entry point) is driven only with images that lie completely inside the key blob's range (its documented precondition)",
+        "OTFAD and BEE have no additive counter that can leave its range: OTFAD places the address itself in the counter block, BEE demands the last four nonce bytes to be zero (word = address >> 4 < 2^28)",
         "IEE AES-CTR without address binding / keystream-only: only the absence of a crash and the untouched bytes outside the ranges are asserted",
         "a refusal (SPSDKError) of a configuration inside the property's quantifier is reported (…/refused): the property presupposes an exported image",
         "OTFAD data byte swap is driven through Otfad.encrypt_image; OtfadNxp.binary_image never swaps (family mimxrt685s, whose database entry asks for it, is not in the NXP-level lane)",
@@ -925,7 +1084,10 @@ def replay(path):
     w = json.load(open(path))["witness"]
     cc = w["case"]
     cc["kb"] = True
-    trs = [t for t in execute(cc) if t["kind"] == w["kind"]]
+    trs = execute(cc)
+    for t in trs:
+        t.pop("drift", None)
+    trs = [t for t in trs if t["kind"] == w["kind"]]
     rej, _ = tlc.tv("C13", "FlashEncTrace", trs)
     for t in trs:
         say(json.dumps({"id": t["id"], "ev": t["ev"]})[:1500])
